@@ -88,6 +88,15 @@ pub struct PoolInfo {
     pub state: String,
 }
 
+/// a Drift spot market of the stand-in venue
+#[derive(Clone, Debug)]
+pub struct MarketInfo {
+    pub market: Pubkey,
+    pub vault: Pubkey,
+    pub mint_name: String,
+    pub index: u16,
+}
+
 /// a Kamino reserve of the stand-in venue: reserve account, its lending market and liquidity supply vault
 #[derive(Clone, Debug)]
 pub struct ReserveInfo {
@@ -106,6 +115,7 @@ pub struct Env {
     pub oracles: BTreeMap<String, OracleInfo>,
     pub pools: BTreeMap<String, PoolInfo>,
     pub reserves: BTreeMap<String, ReserveInfo>,
+    pub markets: BTreeMap<String, MarketInfo>,
 }
 
 pub fn fee_state_key() -> Pubkey {
@@ -324,6 +334,47 @@ impl Env {
         }
         self.token_account(&format!("{}.csupply", name), mint_name, lma);
         self.reserves.insert(name.to_string(), ReserveInfo { reserve, market, lma, supply_vault: vault, mint_name: mint_name.to_string() });
+    }
+
+    /// Drift spot market (stand-in venue): market account with the real layout, vault owned by the venue's signer PDA
+    pub fn add_drift_market(&mut self, name: &str, mint_name: &str, index: u16, cum: u128) {
+        use drift_mocks::state::{MinimalSpotMarket, SPOT_MARKET_DISCRIMINATOR};
+        let drift = marginfi::constants::DRIFT_PROGRAM_ID;
+        let m = self.mints[mint_name].clone();
+        let market = self.k(name);
+        let (signer, _) = crate::venue::drift::signer_pda();
+        self.names.reg("drift.signer", signer);
+        let state = self.k("drift.state");
+        if self.world.get(&state).is_none() {
+            self.world.set(state, Acct { lamports: 10_000_000, data: vec![3u8; 64], owner: drift, executable: false });
+        }
+        let vault = self.token_account(&format!("{}.vault", name), mint_name, signer);
+        let mut sm: MinimalSpotMarket = bytemuck::Zeroable::zeroed();
+        sm.pubkey = market;
+        sm.mint = m.key;
+        sm.vault = vault;
+        sm.cumulative_deposit_interest = cum.to_le_bytes();
+        sm.cumulative_borrow_interest = cum.to_le_bytes();
+        sm.last_interest_ts = self.world.clock.unix_timestamp as u64;
+        sm.decimals = m.decimals as u32;
+        sm.market_index = index;
+        let mut data = SPOT_MARKET_DISCRIMINATOR.to_vec();
+        data.extend_from_slice(bytemuck::bytes_of(&sm));
+        self.world.set(market, Acct { lamports: 100_000_000, data, owner: drift, executable: false });
+        self.markets.insert(name.to_string(), MarketInfo { market, vault, mint_name: mint_name.to_string(), index });
+    }
+    pub fn set_drift_market(&mut self, name: &str, f: &dyn Fn(&mut drift_mocks::state::MinimalSpotMarket)) {
+        use drift_mocks::state::MinimalSpotMarket;
+        let key = match self.markets.get(name) {
+            Some(r) => r.market,
+            None => return,
+        };
+        if let Some(a) = self.world.accts.get_mut(&key) {
+            let sz = std::mem::size_of::<MinimalSpotMarket>();
+            let mut r: MinimalSpotMarket = bytemuck::pod_read_unaligned(&a.data[8..8 + sz]);
+            f(&mut r);
+            a.data[8..8 + sz].copy_from_slice(bytemuck::bytes_of(&r));
+        }
     }
 
     /// environment moves on a reserve: interest (borrowed grows), fees, slot of the last refresh
